@@ -65,6 +65,41 @@ def analyse_value_arm(body):
         res["ctor_value"] = render(strip(st[0]["fields"][0]["e"])) if st[0]["fields"] else None
     if txt == "None":
         res["ctor"] = "None"
+    # does the constructed value come from the operation (through lets, `.ok()`, `?`, a `map` closure parameter)?
+    lenv = let_env(b) if b.get("k") == "Block" else {}
+    cl = {}
+    for m in walk(b):
+        if m["k"] == "MethodCall" and m["method"] in ("map", "and_then") and m["args"] and m["args"][0]["k"] == "Closure":
+            for pin in m["args"][0]["inputs"]:
+                for x in walk(pin):
+                    if x["k"] == "PIdent":
+                        cl[x["name"]] = m["recv"]
+
+    def resolve(e, depth=0):
+        e = strip(e)
+        while depth < 8:
+            depth += 1
+            if e["k"] == "Path" and e["path"] in lenv:
+                e = strip(lenv[e["path"]])
+            elif e["k"] == "Path" and e["path"] in cl:
+                e = strip(cl[e["path"]])
+            elif e["k"] == "Try":
+                e = strip(e["e"])
+            elif e["k"] == "MethodCall" and e["method"] in ("ok", "unwrap") and not e["args"]:
+                e = strip(e["recv"])
+            else:
+                break
+        return e
+
+    res["value_from_op"] = False
+    if len(st) == 1 and st[0]["fields"] and len(ops) == 1:
+        v = resolve(st[0]["fields"][0]["e"])
+        if res["as_bool"] and v["k"] == "Call" and last(render(v["func"])) == "as_bool" and v["args"]:
+            res["as_bool_modulus"] = render(strip(v["args"][1])) if len(v["args"]) > 1 else None
+            v = resolve(v["args"][0])
+            res["value_from_op"] = v is ops[0] or render(v) == render(ops[0])
+        elif not res["as_bool"]:
+            res["value_from_op"] = v is ops[0] or render(v) == render(ops[0])
     return res
 
 
@@ -127,9 +162,9 @@ def rule_operator_table(ctx):
                         ctx.check(R, key + "/argument-order", r["args"] == binds + [pname], "arguments %s, expected %s" % (r["args"], binds + [pname]), site(EI, a))
                         ctx.check(R, key + "/value-only-on-Ok", r["okcall"] == fallible, "fallible=%s, `.ok()` applied=%s" % (fallible, r["okcall"]), site(EI, a))
                         if boolean:
-                            ctx.check(R, key + "/boolean-result", r["ctor"] == "Boolean" and r["as_bool"] and r.get("as_bool_args") == ["value", pname] and "!" not in r["raw"].split("as_bool")[0][-2:], "comparison must yield Boolean { as_bool(result, p) }: %s" % r["raw"], site(EI, a))
+                            ctx.check(R, key + "/boolean-result", r["ctor"] == "Boolean" and r["as_bool"] and r.get("value_from_op") and r.get("as_bool_modulus") == pname and "!" not in r["raw"].split("as_bool")[0][-2:], "comparison must yield Boolean { as_bool(result, p) }: %s" % r["raw"], site(EI, a))
                         else:
-                            ctx.check(R, key + "/field-result", r["ctor"] == "FieldElement" and not r["as_bool"] and r.get("ctor_value") == "value", r["raw"], site(EI, a))
+                            ctx.check(R, key + "/field-result", r["ctor"] == "FieldElement" and not r["as_bool"] and r.get("value_from_op"), r["raw"], site(EI, a))
                     else:
                         seen_bool.add(op)
                         if op not in tab:
@@ -205,14 +240,29 @@ def rule_switch_phi(ctx):
         return ctx.missing(R, "Phi arm")
     t = render(ph[0]["body"]).replace(" ", "")
     import sgrep
+    from pathcond import split_cond
+
     envp = sgrep.lets(ph[0]["body"])
-    hs = [k for k, v in envp.items() if sgrep.has(v, "__a.iter().map(|__n| env.get_variable(__n)).collect::<Option<HashSet<_>>>()")]
-    ok = len(hs) == 1 and any(("%s.len()==1" % x) in t for x in [hs[0], "values"]) if hs else False
-    if hs and not ok:
-        # the binding of the Some(..) arm
-        for a_ in walk(ph[0]["body"]):
-            if a_["k"] == "Arm" and a_["guard"] is not None and re.fullmatch(r"\(?(\w+)\.len\(\)==1\)?", render(a_["guard"]).replace(" ", "")):
-                ok = True
+    collect = sgrep.pattern("__a.iter().map(|__n| env.get_variable(__n)).collect::<Option<HashSet<_>>>()")
+    ws = [w for w in method_calls(ph[0]["body"], "set_reduces_to")]
+    ok = bool(ws)
+    for w in ws:
+        atoms = []
+        for c in conditions_to(ph[0]["body"], w) or []:
+            atoms.append(c)
+            if c[0] == "arm" and c[3] is not None:
+                atoms += split_cond(c[3], True)
+        sets = set()
+        for c in atoms:
+            pat, scrut = (c[1], c[2]) if c[0] == "iflet" and c[3] else ((c[2], c[1]) if c[0] == "arm" else (None, None))
+            if pat is None:
+                continue
+            while pat["k"] == "PRef":
+                pat = pat["pat"]
+            if pat["k"] == "PTupleStruct" and last(pat["path"]) == "Some" and len(pat["elems"]) == 1 and pat["elems"][0]["k"] == "PIdent" and sgrep.match(collect, scrut, {}, envp):
+                sets.add(pat["elems"][0]["name"])
+        one = any(c[0] == "if" and c[2] and any(sgrep.match(sgrep.pattern("%s.len() == 1" % x), c[1], {}) or sgrep.match(sgrep.pattern("1 == %s.len()" % x), c[1], {}) for x in sets) for c in atoms)
+        ok = ok and bool(sets) and one
     ctx.check(R, "Phi/all-known-and-equal", ok, "expected `args.iter().map(|name| env.get_variable(name)).collect::<Option<HashSet<_>>>()` and `len() == 1`: %s" % t[:200], site(EI, ph[0]))
 
 
